@@ -67,7 +67,8 @@ pub fn model(buf: &str, val: &str, vowel: bool, chandra: bool, tkar: bool, reph_
                 Some(l) if is_vowel_letter(l) || is_kar(l) => return out(format!("{buf}{}", independent_of(c).unwrap()), "auto-vowel-after-vowel"),
                 Some(l) if l.is_ascii_punctuation() => return out(format!("{buf}{}", independent_of(c).unwrap()), "auto-vowel-after-punctuation"),
                 Some(l) if is_rare(l) => return Exp::Unspecified("vowel sign after a rare Sanskrit vowel/sign with automatic vowel forming"),
-                Some(l) if !l.is_ascii() && !is_consonant(l) && !is_bengali_digit(l) && l != HASANTA && l != CHANDRA && l != ZWNJ && l != ZWJ && l != 'ং' && l != 'ঃ' && l != AU_MARK => {
+                // (a letter of another script - ग, Ħ, é - is a letter, not punctuation: the sign is appended)
+                Some(l) if !l.is_ascii() && !(l.is_alphabetic() && !BENGALI_BLOCK.contains(&l)) && !is_consonant(l) && !is_bengali_digit(l) && l != HASANTA && l != CHANDRA && l != ZWNJ && l != ZWJ && l != 'ং' && l != 'ঃ' && l != AU_MARK => {
                     return Exp::Unspecified("vowel sign after a non-ASCII mark with automatic vowel forming")
                 }
                 _ => {}
